@@ -972,9 +972,9 @@ theorem scanOpt_chunks (ps : List (Bytes × Tag)) (last : Bytes)
 def ExprKind (k : Nat) : Prop := 7 ≤ k ∧ k ≤ 11
 instance (k : Nat) : Decidable (ExprKind k) := by unfold ExprKind; infer_instance
 
-theorem lexAux_kinds (fuel : Nat) (mode : LexMode) (prev : Option UInt8) (s : Bytes) :
-    ∀ t ∈ lexAux fuel mode prev s, ExprKind t.kind := by
-  fun_induction lexAux fuel mode prev s <;> simp_all [tk, ExprKind] <;> decide
+theorem lexAux_kinds (fuel : Nat) (mode : LexMode) (esc : Bool) (s : Bytes) :
+    ∀ t ∈ lexAux fuel mode esc s, ExprKind t.kind := by
+  fun_induction lexAux fuel mode esc s <;> simp_all [tk, ExprKind] <;> decide
 
 theorem lexExpr_kinds (s : Bytes) : ∀ t ∈ lexExpr s, ExprKind t.kind := lexAux_kinds _ _ _ _
 
